@@ -374,11 +374,24 @@ pub fn run_worker(prop: &dyn Property, tier: Tier, seed: u64, w: u64, n: u64, ou
         let failed = std::cell::Cell::new(false);
         let first_fail: std::cell::RefCell<Option<(String, String)>> =
             std::cell::RefCell::new(None);
+        // shrinking is bounded in time as well as in steps: a failure whose every re-evaluation is
+        // slow (a runner that hangs until its timeout, say) must still be reported promptly
+        let shrink_started: std::cell::Cell<Option<std::time::Instant>> = std::cell::Cell::new(None);
 
         // The closure evaluates one case; used both for generation and for shrinking.
         let eval = |bytes: &[u8]| -> Result<(), TestCaseError> {
             cur.borrow_mut().set(fam.name, bytes);
             let counting = !failed.get();
+            if !counting {
+                match shrink_started.get() {
+                    None => shrink_started.set(Some(std::time::Instant::now())),
+                    Some(t0) => {
+                        if t0.elapsed().as_secs() > 90 {
+                            return Ok(());
+                        }
+                    }
+                }
+            }
             let mut scratch = BTreeMap::new();
             let verdict = {
                 let mut lab = labels_cell.borrow_mut();
